@@ -92,7 +92,7 @@ func (r *run) makeTwin(p *replica, mode string) {
 			}
 		}
 	})
-	if err == nil && msg == "" {
+	if err == nil && msg == "" && mode == "rollback" {
 		// importing = what the subscribe path does after installing a snapshot: the transaction
 		// layer must take the imported state as its rollback point
 		if rt, ok := dt.(interface{ ResetTransaction() errors.OrdaError }); ok {
